@@ -156,13 +156,17 @@ def translate():
     except R.Unrecognised as ex:
         w = v = ""
         soft("socket.rs write paths", str(ex))
-    for rx, what in ((r"if\s+(\w+)\s*==\s*\w+\.len\(\)\s*\{\s*return\s*\(\1,\s*SocketResult::Continue\)", "returns Continue once the cursor reaches the end"),
-                     (r"\w+\.write\(&\w+\[(\w+)\.\.\]\)", "writes the unsent suffix buf[size..]"),
-                     (r"Ok\(0\)\s*=>\s*return\s*\(\w+,\s*SocketResult::Continue\)", "Ok(0) returns Continue"),
-                     (r"\b(\w+)\s*\+=\s*\w+\s*;", "advances the cursor by the written count"),
-                     (r"ErrorKind::WouldBlock\s*=>\s*return\s*\(\w+,\s*SocketResult::WouldBlock\)", "WouldBlock returns the count so far")):
-        if w and not re.search(rx, w):
-            soft("socket.rs tcp_socket_write", "no longer visibly %s (the model's loop does)" % what)
+    cm = re.search(r"if\s+(\w+)\s*==\s*(\w+)\.len\(\)\s*\{\s*return\s*\(\1,\s*SocketResult::Continue\)", w)
+    if w and not cm:
+        soft("socket.rs tcp_socket_write", "no longer visibly returns Continue once the cursor reaches the end of the buffer (the model's loop does)")
+    elif w:
+        C, Bf = re.escape(cm.group(1)), re.escape(cm.group(2))       # the cursor and the buffer, whatever their names
+        for rx, what in ((r"\w+\.write\(&%s\[%s\.\.\]\)" % (Bf, C), "writes the unsent suffix buf[cursor..]"),
+                         (r"Ok\(0\)\s*=>\s*return\s*\(%s,\s*SocketResult::Continue\)" % C, "Ok(0) returns (cursor, Continue)"),
+                         (r"Ok\((\w+)\)\s*=>\s*\{[^}]*\b%s\s*\+=\s*\1\s*;" % C, "advances the cursor by the written count"),
+                         (r"ErrorKind::WouldBlock\s*=>\s*return\s*\(%s,\s*SocketResult::WouldBlock\)" % C, "WouldBlock returns the count so far")):
+            if not re.search(rx, w, re.S):
+                soft("socket.rs tcp_socket_write", "no longer visibly %s (the model's loop does)" % what)
     for rx, what in ((r"\w+\.write_vectored\(\w+\)", "is a single write_vectored"),
                      (r"\((\w+),\s*SocketResult::Continue\)", "returns (sz, Continue)"),
                      (r"ErrorKind::WouldBlock\s*=>\s*\(0,\s*SocketResult::WouldBlock\)", "maps WouldBlock to (0, WouldBlock)")):
